@@ -12,6 +12,9 @@ def handle : Handler := fun cmd args =>
       match splitOffFrontMatter s d with
       | none => pure "none"
       | some (fm, rest) => pure ("some " ++ outHex fm ++ " " ++ outHex rest)
+  | "fmlines", [h] => some do
+      let s ← hexArg h
+      pure (Comrak.Drv.Feed.outLines (lines s))
   | "fmdoc", [h, d] => some do
       let s ← hexArg h
       let d ← hexArg d
